@@ -142,9 +142,9 @@ func main() {
 		return
 	}
 	pieces := []string{"a", "bc", "\n", "\r\n", "\r", "\x1b[31m", "\x1b[0m", "é"}
-	maxPieces := 4
+	maxPieces, maxLen := 4, 12
 	if *common.Tier == "thorough" {
-		maxPieces = 5
+		maxPieces, maxLen = 5, 16
 	}
 	var idx int64
 	streams := map[string]bool{}
@@ -188,6 +188,9 @@ func main() {
 		var rec func(cur string, k int) bool
 		rec = func(cur string, k int) bool {
 			idx++
+			if len(cur) > maxLen {
+				return false
+			}
 			if common.Mine(idx) {
 				streams[cur] = true
 				if splittings(cur, func(chunks []string) bool { return do(chunkCase{Format: format, Chunks: chunks, Name: "tsk"}) }) {
